@@ -37,6 +37,7 @@ type (
 		Forall bool
 		Vars   []string
 		Sorts  []string // "int" or "bool" per var
+		Pats   []SExpr  // optional trigger terms: forall x :: { t1, t2 } body
 		Body   SExpr
 	}
 )
@@ -82,7 +83,7 @@ func lexSpec(s string) ([]tok, error) {
 			out = append(out, tok{"id", s[i:j]})
 			i = j
 		default:
-			ops := []string{"<==>", "==>", ":=", "::", "==", "!=", "<=", ">=", "&&", "||", "<<", ">>", "+", "-", "*", "/", "%", "<", ">", "!", "(", ")", "[", "]", ".", ",", ":", "?", "&", "|", "^"}
+			ops := []string{"<==>", "==>", ":=", "::", "==", "!=", "<=", ">=", "&&", "||", "<<", ">>", "+", "-", "*", "/", "%", "<", ">", "!", "(", ")", "[", "]", ".", ",", ":", "?", "&", "|", "^", "{", "}"}
 			matched := false
 			for _, op := range ops {
 				if strings.HasPrefix(s[i:], op) {
@@ -168,6 +169,18 @@ func (p *sparser) expr() SExpr {
 			break
 		}
 		p.expect("::")
+		if p.peek().k == "op" && p.peek().v == "{" {
+			p.next()
+			for {
+				q.Pats = append(q.Pats, p.expr())
+				if p.isOp(",") {
+					p.next()
+					continue
+				}
+				break
+			}
+			p.expect("}")
+		}
 		q.Body = p.expr()
 		return q
 	}
